@@ -924,6 +924,9 @@ class NetworkGraph(AbstractBaseIR):
                     weight_mat = weight_mat.squeeze(axis=1)
                     eq = f"{t_str_final} = {w_str} * {s_str_final}"
                 else:
+                    if len(tidx_unique) == 1:
+                        # single target: a 1-D weight vector makes the dot product a scalar
+                        weight_mat = weight_mat.squeeze(axis=0)
                     eq = f"{t_str_final} = matvec({w_str}, {s_str_final})"
                 args[w_str] = {'vtype': 'constant', 'value': weight_mat, 'dtype': 'float', 'shape': weight_mat.shape}
 
